@@ -266,7 +266,19 @@ type histProg struct {
 }
 
 func genHistory(t *tape.Tape, uniq string) histProg {
-	switch t.Pick(3, 1, 3, 3, 1, 2, 2, 2, 1, 2, 1, 3, 3, 2, 2, 3, 3, 2) {
+	switch t.Pick(3, 1, 3, 3, 1, 2, 2, 2, 1, 2, 1, 3, 3, 2, 2, 3, 3, 2, 3) {
+	case 18:
+		// shapes far from the usual sizes: anything the interpreter sizes, caches or grows on
+		// demand per process (argument-variable names, buffers, tables) sees its extremes here
+		n := 9 + t.Intn(14)
+		args := make([]string, n)
+		for i := range args {
+			args[i] = fmt.Sprint(i + 1)
+		}
+		a := strings.Join(args, ", ")
+		return histProg{kind: "wide-shapes", faultAt: -1, src: fmt.Sprintf(
+			"{|| \\0.len}(%s).p\n{\\%d}(%s).p\n[%s].len.p\n{|%s| 1}(%s).p\n%s1%s.p\n",
+			a, n, a, a, "p"+strings.Join(args, ", p"), a, strings.Repeat("(", 25), strings.Repeat(")", 25))}
 	case 17:
 		return histProg{kind: "rich-syntax-run", faultAt: -1, src: richSyntax}
 	case 15:
@@ -410,6 +422,8 @@ var probes = []probeProg{
 	{"builtin-names-in-use", "[Int.keys.len > 0, [1].len, \"ab\".len, assertEq(1, 1), Kernel.keys.len > 0, true, nil, Err.new(\"e\").type == Err].p\nassert(false)\n", ""},
 	{"rich-syntax", richSyntax, ""},
 	{"rich-syntax", richSyntax, ""},
+	// argument variables beyond the usual few, with 9 and then 10 arguments
+	{"argvars", "{\\9}(1, 2, 3, 4, 5, 6, 7, 8, 9).p\n{[\\9, \\10]}(1, 2, 3, 4, 5, 6, 7, 8, 9, 10).p\n{|a, b, c, d, e, f, g, h, i, j, k| [i, k, \\11]}(1, 2, 3, 4, 5, 6, 7, 8, 9, 10, 11).p\n", ""},
 	// output through props that are themselves written in Pangaea (native/Obj.pangaea)
 	{"native-output", "\"np\".puts\n\"nq\".print\n[1, 2].puts\n\"end\".p\n", ""},
 	{"syntax-error", "ok := 1\nok +* 2\n", ""},
@@ -977,8 +991,11 @@ func (c *c19Check) runTestHistory(seed, run uint64, t *tape.Tape, s *C19Stats) [
 			"1.try.{|x| _}.A\nhx1 := 5\n",
 			"Int.bear({twice: m{self * 2}})\nq := 7\n",
 			"S := {|i| i}\nS1 := 4\n\"hist\".p\n",
-			"", "", "rich",
-		}[t.Intn(10)]
+			"", "", "rich", "wide",
+		}[t.Intn(11)]
+		if src == "wide" {
+			src = "{|| \\0.len}(1, 2, 3, 4, 5, 6, 7, 8, 9, 10, 11, 12, 13).p\n{\\12}(1, 2, 3, 4, 5, 6, 7, 8, 9, 10, 11, 12).p\n"
+		}
 		if src == "" {
 			src = handledSyntax(t)
 		}
